@@ -26,7 +26,8 @@ THEOREMS = ["Nmfu.C19_override_beats_level", "Nmfu.C19_levels_cumulative", "Nmfu
             "Nmfu.resolve_get_unrelated",
             # NmfuProps/C19Order.lean: projection onto closed sets of flags, and order freedom of the whole table
             "Nmfu.resolveNF_proj_some", "Nmfu.resolveNF_fail_cluster", "Nmfu.resolveNF_order_free",
-            "Nmfu.C19_cluster_order_free", "Nmfu.C19_order_independent_all", "Nmfu.C19_order_independent_perm_all"]
+            "Nmfu.C19_cluster_order_free", "Nmfu.C19_order_independent_all", "Nmfu.C19_order_independent_perm_all",
+            "Nmfu.C19_consistent_all", "Nmfu.C19_explicit_exclusive_is_error", "Nmfu.clusterGoodB_all", "Nmfu.clusterOrderFreeB_all"]
 
 
 def main():
